@@ -37,6 +37,7 @@ type PathResult struct {
 	Choices      map[string]int      `json:"choices,omitempty"`
 	PanicModel   map[string]ModelVal `json:"panic_model,omitempty"`
 	Witness      map[string]ModelVal `json:"witness,omitempty"`
+	WallMs       int64               `json:"wall_ms"`
 }
 
 func (r *PathResult) note(s string) {
@@ -122,7 +123,9 @@ func runPath(P *Program, sol *Solver, fn *ssa.Function, params map[string]string
 		trace: opts.Trace, foreignErr: map[*ssa.Global]bool{}, blobDistinct: params["blob_distinct"] != ""}
 	pr = &PathResult{Status: "ok"}
 	in.res = pr
+	t0 := time.Now()
 	defer func() {
+		pr.WallMs = time.Since(t0).Milliseconds()
 		pr.Decisions = in.taken
 		pr.Steps = in.steps
 		pr.Choices = in.choices
@@ -159,6 +162,9 @@ func runPath(P *Program, sol *Solver, fn *ssa.Function, params map[string]string
 			pr.Why = x.msg + " @ " + x.stack
 			res, m := sol.Check(in.axioms(), true)
 			if res == Sat {
+				if r2, m2 := sol.Check(in.niceStrings(), true); r2 == Sat {
+					m = m2
+				}
 				pr.PanicModel = m
 			} else if res == Unknown {
 				pr.Inconclusive = true
